@@ -10,6 +10,7 @@ mod c15w;
 mod c16;
 mod c16w;
 mod c17;
+mod c19;
 mod common;
 mod corpus;
 mod dwarfref;
@@ -20,6 +21,7 @@ mod e2x;
 mod isession;
 mod reftrace;
 mod sched;
+mod valw;
 
 use common::*;
 use serde_json::Value;
@@ -173,6 +175,11 @@ fn run_check(id: &str, tier: Tier) -> i32 {
             r.parts.push(c16::part_sweep(tier));
             finish(r)
         }
+        "C19" => {
+            let mut r = Report::new("C19", tier, "exploration");
+            r.parts.push(c19::part_c19(tier));
+            finish(r)
+        }
         "C18" => {
             let mut r = Report::new("C18", tier, "model_checking");
             r.parts.push(c01::part_c18(tier));
@@ -210,6 +217,7 @@ fn replay(path: &str) -> i32 {
         "dap" => dapx::replay(rp),
         "c15" => c15::replay(rp),
         "c16" => c16::replay(rp),
+        "c19" => c19::replay(rp),
         "c08-parse" => c08::replay(rp),
         "c04" => c04::replay(rp),
         e => {
